@@ -157,6 +157,10 @@ def step (st : St) (line : String) : St × String :=
     else (st, "bad-op")
   | _ => (st, "bad-op")
 
+/-- `step` plus the `race` op (`race <n> | op | op …`, all ops on one table) -/
+def stepR (st : St) (line : String) : St × String :=
+  if line.trimAscii.toString.startsWith "race" then raceRun step st line else step st line
+
 /-! ### `spec`: the statement of C09 evaluated on the implementation's own answers -/
 
 /-- common fields of a dump entry; `payTok` is what stands before the first comma -/
@@ -224,16 +228,45 @@ def specKey {P K : Type} [DecidableEq P] [DecidableEq K] (parseP : String → Op
   | _ => "fail unparsable-answer"
 
 structure SpecSt where
+  self : Nat := 0
   d : List (Entry DomPay) := []
   f : List (Entry FwdPay) := []
   a : List (Entry Nat) := []
+  dt : List String := []
+  ft : List String := []
+  atk : List String := []
+
+/-- the table a `race` line works on: first letter of its first op -/
+def raceTable (op : String) : String :=
+  match raceOps op with
+  | o :: _ => (o.take 1).toString
+  | [] => ""
+
+/-- `race` on the tables the implementation printed last -/
+def specRace (st : SpecSt) (op out : String) : SpecSt × String :=
+  let tbl := raceTable op
+  let ms : St := {
+    self := st.self
+    d := ⟨baseNow, rebuild domKey (parseCommon parseDomPay) baseNow st.dt⟩
+    f := ⟨baseNow, rebuild (·.key) (parseCommon parseFwdPay) baseNow st.ft⟩
+    a := ⟨baseNow, rebuild id (parseCommon parseAgPay) baseNow st.atk⟩ }
+  let (_, expected) := stepR ms op
+  let v := raceVerdict (tbl == "a") expected out
+  if tbl = "d" then
+    ({ st with d := (parseDumpWith parseDomPay out).getD [], dt := dumpToks out }, v)
+  else if tbl = "f" then
+    ({ st with f := (parseDumpWith parseFwdPay out).getD [], ft := dumpToks out }, v)
+  else if tbl = "a" then
+    ({ st with a := (parseDumpWith parseAgPay out).getD [], atk := dumpToks out }, v)
+  else (st, "bad-op")
 
 def specStep (st : SpecSt) (l : String) : SpecSt × String :=
   match l.splitOn "\t" with
   | [op, out] =>
     if out.startsWith "panic" || out.startsWith "crash" then (st, "fail crashed")
     else match tokens op with
-      | ["reset", _] => ({}, "ok")
+      | ["reset", self] => ({ self := natTok self }, "ok")
+      | "race" :: _ => specRace st op out
       | ["dlook", name] =>
         match bytesOfHex name with
         | some n => (st, specDom st.d n (tokens out))
@@ -253,15 +286,15 @@ def specStep (st : SpecSt) (l : String) : SpecSt × String :=
         let tbl := (opn.take 1).toString
         if tbl = "d" then
           match parseDumpWith parseDomPay out with
-          | some d => ({ st with d := d }, "ok")
+          | some d => ({ st with d := d, dt := dumpToks out }, "ok")
           | none => (st, "fail unparsable-dump")
         else if tbl = "f" then
           match parseDumpWith parseFwdPay out with
-          | some d => ({ st with f := d }, "ok")
+          | some d => ({ st with f := d, ft := dumpToks out }, "ok")
           | none => (st, "fail unparsable-dump")
         else if tbl = "a" then
           match parseDumpWith parseAgPay out with
-          | some d => ({ st with a := d }, "ok")
+          | some d => ({ st with a := d, atk := dumpToks out }, "ok")
           | none => (st, "fail unparsable-dump")
         else (st, "bad-op")
       | [] => (st, "bad-op")
@@ -270,6 +303,6 @@ def specStep (st : SpecSt) (l : String) : SpecSt × String :=
 def main (args : List String) : IO Unit :=
   match args with
   | ["spec"] => runLines ({} : SpecSt) specStep
-  | _ => runLines ({} : St) step
+  | _ => runLines ({} : St) stepR
 
 end MM.Engine.C09
